@@ -181,8 +181,9 @@ def looks_complete(text: str, handed, whitespace: bool):
         had_end = any(h.startswith("END") for hl in handed for h in hl.splitlines())
     else:
         had_end = True
-    if not whitespace and had_end and not (body and body[-1].startswith("END")):
-        return False, "no END record at the end"
+    cif_terminated = lines[-1].strip() == "#"  # CIF input: TER/END elements are skipped, "#" is written last
+    if not whitespace and had_end and not cif_terminated and not (body and body[-1].startswith("END")):
+        return False, "no END record (or CIF '#') at the end"
     return True, f"{na} atom lines"
 
 
@@ -947,6 +948,8 @@ def success_structures(ctx):
     # edge: one-residue chains
     add("lone-ALA", B.build_peptide(["ALA"]), {"protein"}, [("ALA", "nterm+cterm")])
     add("lone-DC", B.build_strand(["C"]), {"dna"}, [("DC", "5term+3term")])
+    p3 = B.build_peptide(["VAL", "THR", "GLN"])
+    add("pep+lone-DG", p3 + B.build_strand(["G"], origin=(40.0, 0.0, 0.0)), {"protein", "dna"}, [("DG", "5term+3term-in-complex")])
     # seeded random sequences and option mixes
     rng = ctx.rng
     nrand = 120 if ctx.thorough else 14
@@ -1110,7 +1113,7 @@ def cli_cases(ctx, structs, runner):
         ("cli-nonintegral", structs["missing-CZ"], ["--ff=AMBER", "--assign-only"], True, "fail", {}),
         ("cli-empty-input", "", ["--ff=PARSE"], False, "fail", {}),
         ("cli-nonascii-chain-utf8", nonascii_chain(structs["pep"]), ["--ff=AMBER", "--keep-chain"], True, "either", {"PYTHONUTF8": "1"}),
-        ("cli-ascii-locale-nonascii-chain", nonascii_chain(structs["pep"]), ["--ff=AMBER", "--keep-chain"], True, "either", ASCII_ENV),
+        ("cli-ascii-locale-nonascii-chain", nonascii_chain(structs["pep"]), ["--ff=AMBER", "--keep-chain"], True, "ok", ASCII_ENV),
     ):
         case = {"kind": "cli", "tag": tag, "files": {"in.pdb": text}, "opts": opts, "pre": pre, "expect": expect, "env": env}
         rc, state, why, err = cli_run(runner, case)
